@@ -124,7 +124,71 @@ def sx_head_at_diff(a, b):
     return "%s/%s" % (head(b), head(a))
 
 
-def parser_tie(ctx, pend, oexe, pexe, sexe=None):
+def e2e_search(ctx, oexe, pexe, eexe, x, n_val=8):
+    """END-TO-END search on an input for which the model's tree and the implementation's tree differ although both accept it:
+    find the shortest sub-text that both read as an expression but as different trees, bind its identifiers to constants
+    (several random valuations), evaluate through the real planner and compare with the model's evaluation of the model's tree.
+    -> (signature, replay dict) for the first valuation with different values, else None."""
+    from fractions import Fraction
+    rng = ctx.rng
+    ws = G.expr_windows(x)
+    if not ws:
+        return None
+    impl = [lang_lib.canon_parse(r) for r in lang_lib.run_harness(pexe, ws, args=["--expr"], jobs=4, tmo=5)]
+    model = lang_lib.run_oracle(oexe, ["pexpr " + w.hex() for w in ws])
+    cands = [(w, a[3:], m[3:]) for w, a, m in zip(ws, impl, model)
+             if a.startswith("OK (") and m.startswith("OK (") and a != m][:4]
+    for w, ti, tm in cands:
+        try:
+            em = G.expr_of_sx(G.read_sx(tm))
+        except (ValueError, IndexError):
+            continue
+        it = G.infer_types(em)
+        if it is None:
+            continue
+        ty, kind = it
+        try:   # identifiers that only the implementation's tree mentions get the arithmetic type
+            it2 = G.infer_types(G.expr_of_sx(G.read_sx(ti)))
+            for n in (it2[0] if it2 else {}):
+                ty.setdefault(n, it2[0][n])
+        except (ValueError, IndexError):
+            pass
+        if G.infer_types_check(ty) is False:
+            continue
+        jobs = []
+        for _ in range(n_val):
+            vals = {n: (Fraction(rng.choice([-7, -5, -3, -2, -1, 1, 2, 3, 5, 7, 11]), rng.choice([1, 1, 1, 2, 3])) if t == "a" else rng.random() < 0.5)
+                    for n, t in ty.items()}
+            prog, probe, env = G.bind_program(ty, vals, kind, w.decode("latin1"))
+            jobs.append((vals, prog, probe, env))
+        got = lang_lib.run_harness(eexe, [j[1].encode("latin1") for j in jobs], jobs=4, tmo=20, as_mb=4096)
+        want = lang_lib.run_oracle(oexe, ["eval %s | %s" % (j[3], tm) for j in jobs])
+        for (vals, prog, probe, env), a, m in zip(jobs, got, want):
+            mm = m.split(" ")
+            if mm[0] == "A":
+                mv = "r:" + mm[1]
+            elif mm[0] == "B":
+                mv = "T" if mm[1] == "1" else "F"
+            else:
+                continue          # the model does not evaluate it under this valuation (non-linear, division by zero, ...)
+            iv = None
+            if a.startswith("OK solved=1"):
+                for kv in a.split(" ")[2:]:
+                    if kv.startswith(probe + "="):
+                        iv = kv.split("=", 1)[1]
+            elif lang_lib.outcome_class(a) in ("ABORT", "HANG"):
+                iv = a[:80]
+            if iv is not None and iv != mv:
+                return ("eval:misparsed-expression:" + sx_head_at_diff(ti, tm),
+                        {"kind": "evaluation-of-a-misparsed-expression", "program": prog, "expression": w.decode("latin1"),
+                         "valuation": {n: str(v) for n, v in vals.items()}, "expected": mv, "implementation": iv,
+                         "tree_by_the_language": tm, "tree_built_by_the_implementation": ti,
+                         "found_in_input_hex": x[:4000].hex(), "found_in_input": x[:300].decode("latin1"),
+                         "replay_cmd": "echo %s | %s" % (prog.encode("latin1").hex(), eexe)})
+    return None
+
+
+def parser_tie(ctx, pend, oexe, pexe, sexe=None, eexe=None):
     rng = ctx.rng
     cov = ctx.cov
     total, bad = 0, 0
@@ -139,6 +203,8 @@ def parser_tie(ctx, pend, oexe, pexe, sexe=None):
         else:
             pend.violation(sig, rep, no_input=True)
 
+    both = []     # (input, signature, replay, already reported) of inputs that both sides accept with different trees
+
     # (a) corpus + examples: model vs implementation on real programs
     texts = [bytes.fromhex(c["input_hex"]) for c in corpus("C16") if c.get("kind") == "parse"] + [open(f, "rb").read() for f in example_files()]
     impl = [lang_lib.canon_parse(x) for x in lang_lib.run_harness(pexe, texts, jobs=4, tmo=5)]
@@ -152,7 +218,11 @@ def parser_tie(ctx, pend, oexe, pexe, sexe=None):
             da, dm = first_diff(a, m)
             valid = m.startswith("OK")
             sig = ("parse:valid-program:" + lang_lib.outcome_class(a)) if valid and not a.startswith("OK") else "corr:parse:examples"
-            report(sig, {"kind": "parser", "input_hex": x.hex(), "input": x[:300].decode("latin1"), "implementation": da, "model": dm}, valid and not a.startswith("OK"))
+            rep = {"kind": "parser", "input_hex": x.hex(), "input": x[:300].decode("latin1"), "implementation": da, "model": dm}
+            if valid and a.startswith("OK"):
+                both.append((x, sig, rep, False))
+            else:
+                report(sig, rep, valid and not a.startswith("OK"))
 
     # (b) generated trees: show (pp u) must be read back as u (the printer is the specification)
     n_units = 8000 if ctx.thorough else 1000
@@ -172,14 +242,23 @@ def parser_tie(ctx, pend, oexe, pexe, sexe=None):
     for _ in range(n_exprs):
         e = G.gen_expr(rng, rng.choice([1, 2, 3, 3, 4, 5, 6, 8]))
         sx.append(("expr", "(cu (types) (methods) (preds) (stmts (expr %s)))" % G.sx_expr(e)))
+    # parenthesised identifiers / qualified identifiers as operands of every binary and n-ary operator, followed by every unary
+    # operator: `(a) - b`, `(a.b) + c`, `(a) * (b)`, `(a) - -b`, `((a)) - b`. The text is NOT the printer's (which never writes a
+    # redundant parenthesis) but lang_gen.render_paren's; by the grammar it denotes the tree it was rendered from.
+    ptrees = G.gen_paren_id_trees(rng, 3000 if ctx.thorough else 400)
+    ptext = {}
+    for t, st in ptrees:
+        s1 = "(cu (types) (methods) (preds) (stmts (expr %s)))" % G.sx_expr(t)
+        ptext[len(sx)] = (G.render_paren(rng, t, st) + " ;").encode()
+        sx.append(("paren-ids", s1))
     shown = lang_lib.run_oracle(oexe, ["show " + s for _, s in sx])
     texts, wanted, kinds = [], [], []
-    for (k, s), line in zip(sx, shown):
+    for i, ((k, s), line) in enumerate(zip(sx, shown)):
         if line.startswith("?"):
             report("corr:parse:oracle-show", {"kind": "oracle-failure", "sexpr": s[:500], "answer": line}, False)
             continue
         h, canon = line.split(" ", 1)
-        texts.append(bytes.fromhex(h))
+        texts.append(ptext.get(i, bytes.fromhex(h)))
         wanted.append("OK " + canon)
         kinds.append(k)
     impl = [lang_lib.canon_parse(x) for x in lang_lib.run_harness(pexe, texts, jobs=4, tmo=5)]
@@ -194,8 +273,11 @@ def parser_tie(ctx, pend, oexe, pexe, sexe=None):
                 sig = "parse:grouping:" + sx_head_at_diff(a, w)
             else:
                 sig = "parse:rejects-valid:%s:%s" % (k, a[:60])
-            report(sig, {"kind": "parser-roundtrip", "input_hex": x.hex(), "input": x[:400].decode("latin1"),
-                         "expected_tree": dw, "implementation": da, "model": first_diff(m, w)[0]}, True)
+            rep = {"kind": "parser-roundtrip", "input_hex": x.hex(), "input": x[:400].decode("latin1"),
+                   "expected_tree": dw, "implementation": da, "model": first_diff(m, w)[0]}
+            report(sig, rep, True)
+            if a.startswith("OK") and m == w:
+                both.append((x, sig, rep, True))
         elif m != w:
             report("corr:parse:model-roundtrip", {"kind": "model-roundtrip", "input": x[:400].decode("latin1"), "expected_tree": first_diff(w, m)[0], "model": first_diff(m, w)[0]}, False)
 
@@ -215,9 +297,42 @@ def parser_tie(ctx, pend, oexe, pexe, sexe=None):
             if lang_lib.outcome_class(a) in ("ABORT", "HANG"):
                 report("parse:%s-on-mutated-text" % lang_lib.outcome_class(a).lower(), {"kind": "parser", "input_hex": x.hex(), "input": x[:300].decode("latin1"), "implementation": a[:200], "model": m[:200]}, True)
             else:
-                report("corr:parse:mutated:%s/%s" % (m.split(" ")[0] + (" " + m.split(" ")[1] if m.startswith("ERR") else ""), a.split(" ")[0] + (" " + a.split(" ")[1] if a.startswith("ERR") else "")),
-                       {"kind": "parser-differs-from-model", "input_hex": x.hex(), "input": x[:300].decode("latin1"), "implementation": da, "model": dm}, False)
+                sig = "corr:parse:mutated:%s/%s" % (m.split(" ")[0] + (" " + m.split(" ")[1] if m.startswith("ERR") else ""), a.split(" ")[0] + (" " + a.split(" ")[1] if a.startswith("ERR") else ""))
+                rep = {"kind": "parser-differs-from-model", "input_hex": x.hex(), "input": x[:300].decode("latin1"), "implementation": da, "model": dm}
+                if a.startswith("OK") and m.startswith("OK"):
+                    both.append((x, sig, rep, False))
+                else:
+                    report(sig, rep, False)
     dist["mutated-accepted"] = acc
+
+    # (c') both sides accept the input but build different trees: which tree is the language's is decided END TO END -- the
+    # sub-expression on which they differ is evaluated through the real planner under concrete valuations and compared with the
+    # model's evaluation of the model's tree. A value difference is the failing input (program + valuation + both values).
+    e2e = {"inputs_with_different_trees": len(both), "searched": 0, "value_differences": 0, "without_value_difference": 0}
+    if both:
+        hits, misses = [], []
+        order = sorted(range(len(both)), key=lambda i: len(both[i][0]))
+        for i in order:
+            x, sig, rep, reported = both[i]
+            hit = None
+            if eexe and e2e["searched"] < (40 if ctx.thorough else 12) and len(hits) < 4:
+                e2e["searched"] += 1
+                hit = e2e_search(ctx, oexe, pexe, eexe, x)
+            if hit:
+                hits.append(hit)
+            elif not reported:
+                misses.append((sig, rep))
+        e2e["value_differences"] = len(hits)
+        e2e["without_value_difference"] = len(misses)
+        for hsig, hrep in hits:
+            hrep = dict(hrep, other_inputs_with_different_trees=[r["input"][:120] for _, r in misses[:10]])
+            report(hsig, hrep, True)
+        if not hits:
+            for sig, rep in misses:
+                report(sig, rep, False)
+        else:
+            bad += len(misses)
+    cov["end_to_end_search_on_tree_disagreements"] = e2e
 
     # (d) the destruction path: the sanitizer build of the same harness parses AND destroys the compilation unit (every node of the
     # tree is deleted by its owner exactly once); no report (ABORT), no memory left behind for an accepted program (LEAK), same tree.
@@ -284,6 +399,10 @@ def eval_programs(ctx):
         if want is None or mag is None or mag >= 2 ** 28:
             skipped[0] += 1
             continue
+        # some programs are written with redundant parentheses around identifiers and literals (`(x0) - x1`, `(o.x0) + 1`) instead of
+        # by the model's printer, and some of their variables are fields of an object (qualified identifiers)
+        paren = rng.random() < 0.35
+        qual = set(n for n in names if rng.random() < 0.5) if paren and rng.random() < 0.4 else set()
         lines = []
         for n in names:
             v = vals[n]
@@ -291,10 +410,15 @@ def eval_programs(ctx):
             if lit is None:
                 # pin the variable through an exact expression:  n / d  (and a sign)
                 lit = "%s%d / %d" % ("-" if v < 0 else "", abs(v.numerator), v.denominator)
-            lines.append("real %s; %s == %s;" % (n, n, lit))
-        progs.append({"decl": lines, "probe": "v", "kind": "a", "want": want, "expr": e,
-                      "env": ",".join("%s:a:%d:%d/%d" % (n, i + 1, vals[n].numerator, vals[n].denominator) for i, n in enumerate(names)),
-                      "tags": ["constant" if const else "linear"]})
+            if n not in qual:
+                lines.append("real %s; %s == %s;" % (n, n, lit))
+            else:
+                lines.append("o.%s == %s;" % (n, lit))
+        if qual:
+            lines.insert(0, "class C_o { %s } C_o o = new C_o();" % " ".join("real %s;" % n for n in names if n in qual))
+        progs.append({"decl": lines, "probe": "v", "kind": "a", "want": want, "expr": G.qualify_ids(e, qual), "paren": paren,
+                      "env": ",".join("%s%s:a:%d:%d/%d" % ("o." if n in qual else "", n, i + 1, vals[n].numerator, vals[n].denominator) for i, n in enumerate(names)),
+                      "tags": ["constant" if const else "linear"] + (["redundant-parentheses"] if paren else []) + (["qualified-identifiers"] if qual else [])})
     for _ in range(n_b):
         nb = rng.choice([0, 1, 2, 3])
         na = rng.choice([0, 0, 1, 2])
@@ -316,15 +440,24 @@ def eval_programs(ctx):
             tags.append("disjunction-false")
         if G.xor_risky(e, bvals, avals):
             tags.append("xor-repeated")
+        paren = rng.random() < 0.35
+        qual = set(n for n in an + bn if rng.random() < 0.5) if paren and rng.random() < 0.4 else set()
+        if paren:
+            tags.append("redundant-parentheses")
+        if qual:
+            tags.append("qualified-identifiers")
+        pre = lambda n: "o." if n in qual else ""
         lines = []
+        if qual:
+            lines.append("class C_o { %s } C_o o = new C_o();" % " ".join(("real %s;" if n in an else "bool %s;") % n for n in an + bn if n in qual))
         for n in an:
             v = avals[n]
-            lines.append("real %s; %s == %d / %d;" % (n, n, v.numerator, v.denominator))
+            lines.append(("" if n in qual else "real %s; " % n) + "%s%s == %d / %d;" % (pre(n), n, v.numerator, v.denominator))
         for n in bn:
-            lines.append("bool %s; %s%s;" % (n, "" if bvals[n] else "!", n))
-        env = ",".join(["%s:a:%d:%d/%d" % (n, i + 1, avals[n].numerator, avals[n].denominator) for i, n in enumerate(an)] +
-                       ["%s:b:%d:%d" % (n, i + 1, 1 if bvals[n] else 0) for i, n in enumerate(bn)])
-        progs.append({"decl": lines, "probe": "q", "kind": "b", "want": want, "expr": e, "env": env, "tags": tags})
+            lines.append(("" if n in qual else "bool %s; " % n) + "%s%s%s;" % ("" if bvals[n] else "!", pre(n), n))
+        env = ",".join(["%s%s:a:%d:%d/%d" % (pre(n), n, i + 1, avals[n].numerator, avals[n].denominator) for i, n in enumerate(an)] +
+                       ["%s%s:b:%d:%d" % (pre(n), n, i + 1, 1 if bvals[n] else 0) for i, n in enumerate(bn)])
+        progs.append({"decl": lines, "probe": "q", "kind": "b", "want": want, "expr": G.qualify_ids(e, qual), "paren": paren, "env": env, "tags": tags})
     return progs
 
 
@@ -339,13 +472,15 @@ def eval_tie(ctx, pend, oexe, eexe):
     shown = lang_lib.run_oracle(oexe, ["showe " + G.sx_expr(p["expr"]) for p in need])
     for p, line in zip(need, shown):
         txt = bytes.fromhex(line.split(" ", 1)[0]).decode("latin1")
+        if p.get("paren"):
+            txt = G.render_paren(ctx.rng, p["expr"])
         if p["kind"] == "a":
             p["text"] = " ".join(p["decl"]) + " real v; v == %s;" % txt
         else:
             p["text"] = " ".join(p["decl"]) + " bool q; q == (%s);" % txt
     impl = lang_lib.run_harness(eexe, [p["text"].encode("latin1") for p in progs], jobs=8, tmo=20, as_mb=4096)
     model = lang_lib.run_oracle(oexe, ["eval %s | %s" % (p["env"], G.sx_expr(p["expr"])) if "expr" in p else "eval | (bool 1)" for p in progs])
-    dist = {"arith": 0, "bool": 0, "with-a-false-disjunction": 0, "xor-with-two-true-operands": 0}
+    dist = {"arith": 0, "bool": 0, "with-a-false-disjunction": 0, "xor-with-two-true-operands": 0, "redundant-parentheses": 0, "qualified-identifiers": 0}
     bad = 0
     nontrivial = set()
     for p, a, m in zip(progs, impl, model):
@@ -369,6 +504,9 @@ def eval_tie(ctx, pend, oexe, eexe):
         if "xor-repeated" in p["tags"]:
             dist["xor-with-two-true-operands"] += 1    # (once merged as equal literals: fixed in /repo 6b4d509)
         dist["arith" if kind == "a" else "bool"] += 1
+        for t in ("redundant-parentheses", "qualified-identifiers"):
+            if t in p["tags"]:
+                dist[t] += 1
         nontrivial.add(p["text"])
         # the model's own two answers (evaluated expression / denotation) must agree with the independent judge
         if "expr" in p:
@@ -413,7 +551,7 @@ def run(ctx):
 
     n1, b1, nt1 = lexer_tie(ctx, pend, oexe, lexe)
     ctx.log("lexer tie: %d inputs, %d disagreements" % (n1, b1))
-    n2, b2, nt2 = parser_tie(ctx, pend, oexe, pexe, sexe)
+    n2, b2, nt2 = parser_tie(ctx, pend, oexe, pexe, sexe, eexe)
     ctx.log("parser tie: %d programs, %d disagreements" % (n2, b2))
     n3, b3, nt3 = eval_tie(ctx, pend, oexe, eexe)
     ctx.log("evaluation tie: %d programs, %d disagreements" % (n3, b3))
@@ -432,7 +570,8 @@ def run(ctx):
     cov["rule"] = ("lexer: every state of the keyword automaton x every next byte, every first byte, all operator pairs, token soup, "
                    "examples and byte mutations, `show` of random well-formed token lists; parser: all example programs, `show (pp u)` of "
                    "random compilation units (incl. units built around disjunctions in which only some disjuncts carry a cost) and expression trees "
-                   "(depth <= 8, all node kinds), token mutations, and a subset of all of these parsed AND destroyed under ASan/UBSan/LSan; evaluation: random LINEAR "
+                   "(depth <= 8, all node kinds), texts with redundant parentheses around identifiers as operands of every operator (tree tier and value tier), "
+                   "token mutations (a tree disagreement on an input both sides accept is searched end to end: bound identifiers, real planner vs model value), and a subset of all of these parsed AND destroyed under ASan/UBSan/LSan; evaluation: random LINEAR "
                    "arithmetic trees over literals and pinned variables, boolean formulas over pinned variables and relations; non-trivial = "
                    "more than 4 tokens / a distinct tree / a distinct program")
     ctx.sample({"lexer_inputs": n1, "parser_programs": n2, "evaluation_programs": n3})
